@@ -8,7 +8,7 @@
    None, 0, 1, (0, 1); both_spellings = [(0, 1); [0, 1]; (1, 0)]. *)
 From Coq Require Import List Arith Bool ZArith Reals QArith.
 From PA Require Import base.Arr base.Px base.QClose model.Symmetry model.SymmetryQ
-  proofs.SymmetryProofs proofs.C06R proofs.C06Q.
+  proofs.SymmetryProofs proofs.C06R.
 Import ListNotations.
 
 (* Splitting any image (every shape, every parity) into quadrants and
@@ -106,15 +106,36 @@ Example C06_hypotheses_satisfiable :
   wf 3 2 [[1; 2]; [3; 4]; [5; 6]]%R /\ (1 <= 3)%nat /\ (1 <= 2)%nat.
 Proof. exact R_example_wf. Qed.
 
-(* Clauses the faithful model violates (recorded finding, KNOWN_FINDINGS.json):
-   symmetrize_method='fourier' mirrors about index 0, not the image centre. *)
-Theorem C06_fourier_fix_refuted :
-  exists IM : list (list Q),
-    wf 1 3 IM /\ fliplr IM = IM /\ symQ_differs ax_0 mask_all Fourier IM IM = true.
-Proof. exact fourier_fix_refuted. Qed.
-Print Assumptions C06_fourier_fix_refuted.
+(* ---- symmetrize_method='fourier' (after the repair of the centring defect) ---- *)
 
-Theorem C06_fourier_idem_refuted :
-  exists IM : list (list Q), wf 1 3 IM /\ symQ_twice_differs ax_0 mask_all Fourier IM = true.
-Proof. exact fourier_idem_refuted. Qed.
-Print Assumptions C06_fourier_idem_refuted.
+(* mirror symmetry, for every mask that is not rejected *)
+Theorem C06_fourier_mirror : forall (n m : nat) (IM S : list (list R)) (u : mask),
+  wf n m IM -> (1 <= n)%nat -> (1 <= m)%nat ->
+  (symR ax_0 u Fourier IM = Ok S -> fliplr S = S) /\
+  (symR ax_1 u Fourier IM = Ok S -> flipud S = S) /\
+  (forall a, In a both_spellings -> symR a u Fourier IM = Ok S -> fliplr S = S /\ flipud S = S).
+Proof. exact R_fourier_mirror. Qed.
+Print Assumptions C06_fourier_mirror.
+
+Theorem C06_fourier_fix : forall (n m : nat) (IM : list (list R)) (u : mask),
+  wf n m IM -> (1 <= n)%nat -> (1 <= m)%nat ->
+  (fliplr IM = IM -> rejects ax_0 u = false -> symR ax_0 u Fourier IM = Ok IM) /\
+  (flipud IM = IM -> rejects ax_1 u = false -> symR ax_1 u Fourier IM = Ok IM) /\
+  (forall a, In a both_spellings ->
+     fliplr IM = IM -> flipud IM = IM -> rejects a u = false -> symR a u Fourier IM = Ok IM).
+Proof. exact R_fourier_fix. Qed.
+Print Assumptions C06_fourier_fix.
+
+Theorem C06_fourier_idem : forall (n m : nat) (IM S : list (list R)) (u : mask) (a : axis),
+  wf n m IM -> (1 <= n)%nat -> (1 <= m)%nat -> In a (ax_0 :: ax_1 :: both_spellings) ->
+  symR a u Fourier IM = Ok S -> symR a u Fourier S = Ok S.
+Proof. exact R_fourier_idem. Qed.
+Print Assumptions C06_fourier_idem.
+
+(* the Fourier method returns the 'average' result with all quadrants enabled *)
+Theorem C06_fourier_eq_average : forall (n m : nat) (IM : list (list R)) (u : mask),
+  wf n m IM -> (1 <= n)%nat -> (1 <= m)%nat ->
+  (rejects ax_0 u = false -> symR ax_0 u Fourier IM = symR ax_0 mask_all Average IM) /\
+  (rejects ax_1 u = false -> symR ax_1 u Fourier IM = symR ax_1 mask_all Average IM).
+Proof. exact R_fourier_eq_average. Qed.
+Print Assumptions C06_fourier_eq_average.
